@@ -314,7 +314,7 @@ pub fn contract_attr_lines(p: &Program) -> Vec<String> {
         lines.push("#[sv::features(replies)]".to_string());
     }
     for k in &p.contract.overrides {
-        lines.push(format!("#[sv::override_entry_point({}=ovr::{}(ovr::OvrMsg))]", k.attr(), k.ep()));
+        lines.push(format!("#[sv::override_entry_point({}=ovr::{}(OvrMsg))]", k.attr(), k.ep()));
     }
     lines
 }
@@ -387,9 +387,8 @@ pub fn render_overrides(p: &Program) -> String {
     let (c, q, err) = (c_ty(p), q_ty(p), err_ty(p));
     let mut s = String::new();
     writeln!(s, "pub mod ovr {{\n    use super::*;").unwrap();
-    writeln!(s, "    #[svrt::cw_serde_alias]\n    pub struct OvrMsg {{ pub tag: String }}").unwrap();
     for k in &p.contract.overrides {
-        let conv = if p.contract.error == ErrTy::Custom { ".map_err(Into::into)" } else { "" };
+        let conv = if p.contract.error == ErrTy::Custom { ".map_err(CErr::from)" } else { "" };
         match k {
             Kind::Exec | Kind::Instantiate => writeln!(
                 s,
@@ -514,7 +513,8 @@ fn render_reply_method(p: &Program, m: &Method, params: &[String], c: &str, q: &
         // legacy form (no `sv::features(replies)`): the handler receives the raw `Reply`
         let tail = if custom_err { ".map_err(to_cerr)" } else { "" };
         writeln!(s, "    #[sv::msg(reply)]").unwrap();
-        writeln!(s, "    fn {}(&self, ctx: {}, reply: Reply) -> Result<{}, {e}> {{", m.name, ctx_ty(Kind::Reply, q), resp_ty(c)).unwrap();
+        let lctx = if q == "Empty" { "LegacyReplyCtx".to_string() } else { format!("LegacyReplyCtx<{q}>") };
+        writeln!(s, "    fn {}(&self, ctx: {lctx}, reply: Reply) -> Result<{}, {e}> {{", m.name, resp_ty(c)).unwrap();
         writeln!(
             s,
             "        echo_mut::<{q}, {c}>(ctx.deps, &ctx.env, None, \"ctr::reply::{}\", \"reply\", vec![(\"reply\", svrt::j(&reply))], svrt::serde_json::Value::Null){tail}",
